@@ -41,8 +41,10 @@ pub(crate) mod interfere {
     unsafe impl Sync for AtomicUsize {}
 
     pub(crate) const MAX_OTHER: usize = 4;
-    pub(crate) static mut OTHER_IDS: [usize; MAX_OTHER] = [0; MAX_OTHER];
-    pub(crate) static mut OTHER_N: usize = 0;
+    pub(crate) static mut OTHER_IDS: [usize; MAX_OTHER] = [0x5EED_0C03_0000_0001; MAX_OTHER];
+    // distinctive initial value (Kani 0.68 deduplicated an 8-zero-byte std constant onto a
+    // zero-initialised `static mut`, see shims/clock.rs); the harness resets it to 0 first
+    pub(crate) static mut OTHER_N: usize = 0x5EED_0C03_5EED_0C03;
 
     impl AtomicUsize {
         pub(crate) const fn new(v: usize) -> Self {
@@ -126,6 +128,7 @@ pub(crate) mod extracted {
 #[kani::proof]
 #[kani::unwind(6)]
 fn next_is_unique_under_interference() {
+    unsafe { interfere::OTHER_N = 0 };
     let c0: usize = kani::any();
     kani::assume(c0 < usize::MAX - 16);
     extracted::NEXT_CONNECTION_ID.raw_set(c0);
